@@ -65,10 +65,21 @@ def run(chk, repo: Repo):
     chk.rule("C20-R6", "lazy caches in the MRF/operator classes are reset by every writer of their inputs", floor=0)
     pf = repo.cls(f"{OP}:PrecisionFiniteDifference")
     cp = repo.method(pf, "_create_prec_matrix")[1]
-    asg = [n for n in ast.walk(cp) if isinstance(n, ast.Assign) and path_of(n.targets[0]) == "self._matrix"]
-    ok = len(asg) == 1 and _norm(asg[0].value) in ("(self._diff_op.T@self._diff_op).tocsc()", "(self._diff_op.T@self._diff_op).tocsr()", "self._diff_op.T@self._diff_op")
+    from .common import canon_fn
+    from ..flow import Expander
+    exq = Expander(canon_fn(repo, pf, cp, 1))
+    asg = [n for n in exq.cfg.nodes if n.kind == "stmt" and isinstance(n.ast, ast.Assign) and path_of(n.ast.targets[0]) == "self._matrix"]
+    ok = len(asg) == 1
+    shown = "?"
+    if ok:
+        e = exq.expand(asg[0].ast.value, asg[0])
+        shown = unparse(e)
+        while isinstance(e, ast.Call) and isinstance(e.func, ast.Attribute) and e.func.attr in ("tocsc", "tocsr") and not e.args:
+            e = e.func.value
+        ok = isinstance(e, ast.BinOp) and isinstance(e.op, ast.MatMult) and isinstance(e.left, ast.Attribute) and e.left.attr == "T" \
+            and _norm(e.left.value) == _norm(e.right) and _norm(e.right) in ("self._diff_op", "self._diff_op.get_matrix()")
     chk.add("C20-R1", f"{pf.qual}._create_prec_matrix", ok, site(repo, cp), "D.T @ D",
-            f"precision matrix is `{unparse(asg[0].value) if asg else '?'}`, not D.T @ D of the stored difference operator", cp)
+            f"precision matrix is `{shown}`, not D.T @ D of the stored difference operator", cp)
     init = repo.method(pf, "__init__")[1]
     t = _norm(init)
     ok = "iforder==0:self._diff_op=FirstOrderFiniteDifference(num_nodes,'none')" in t and "eliforder==1:self._diff_op=FirstOrderFiniteDifference(num_nodes,bc_type=bc_type)" in t \
@@ -128,14 +139,30 @@ def run(chk, repo: Repo):
     t = _norm(ginit)
     problems = []
     for pat, msg in (("self._prec_op=PrecisionFiniteDifference(num_nodes=num_nodes,bc_type=bc_type,order=order)", "precision operator built from (num_nodes, bc_type, order)"),
-                     ("self._diff_op=self._prec_op._diff_op", "difference operator is the precision operator's own"),
-                     ("self._chol=sparse_cholesky(self._prec_op.get_matrix()).T", "Cholesky factor of the precision (zero bc)"),
-                     ("self._chol=sparse_cholesky(self._prec_op+np.sqrt(eps)*eye(self.dim,dtype=int)).T", "regularised Cholesky factor of the precision (periodic/neumann)"),
-                     ("self._logdet=2*sum(np.log(self._chol.diagonal()))", "log-determinant from the Cholesky diagonal"),
-                     ("self._L_eigval=splinalg.eigsh(self._prec_op.get_matrix(),self._rank,which='LM',return_eigenvectors=False)", "non-zero eigenvalues of the precision"),
-                     ("self._logdet=sum(np.log(self._L_eigval))", "log pseudo-determinant from those eigenvalues")):
+                     ("self._diff_op=self._prec_op._diff_op", "difference operator is the precision operator's own")):
         if pat not in t:
             problems.append(f"{msg} (`{pat}` not found)")
+    # every value stored in the factor / log-determinant / eigenvalue fields, with temporaries and one-line helpers resolved
+    exg = Expander(canon_fn(repo, gm, ginit, 2))
+    STOP = frozenset({"self._chol", "self._L_eigval", "self._rank", "self.dim", "self._prec_op"})
+    P = ("self._prec_op", "self._prec_op.get_matrix()")
+    JIT = ("np.sqrt(np.finfo(float).eps)",)
+    allowed = {
+        "self._chol": {f"sparse_cholesky({P[1]}).T"} | {f"sparse_cholesky({p_}+{j}*eye(self.dim,dtype=int)).T" for p_ in P for j in JIT},
+        "self._logdet": {"2*sum(np.log(self._chol.diagonal()))", "sum(np.log(self._L_eigval))"},
+        "self._L_eigval": {f"splinalg.eigsh({P[1]},self._rank,which='LM',return_eigenvectors=False)"},
+    }
+    seenv = {k: set() for k in allowed}
+    for n in exg.cfg.nodes:
+        if n.kind == "stmt" and isinstance(n.ast, ast.Assign) and path_of(n.ast.targets[0]) in allowed:
+            fld = path_of(n.ast.targets[0])
+            v_ = _norm(exg.expand(n.ast.value, n, stop=STOP))
+            seenv[fld].add(v_)
+            if v_ not in {_norm(ast.parse(a_, mode="eval").body) for a_ in allowed[fld]}:
+                problems.append(f"`{fld}` is computed as `{v_[:120]}`: it does not derive from the field's own precision operator self._prec_op")
+    for fld, vals in seenv.items():
+        if not vals:
+            problems.append(f"`{fld}` is never computed")
     sp = gm.lookup_prop("sqrtprec")
     if sp is None or "np.sqrt(self.prec)*self._chol.T" not in _norm(sp.getter):
         problems.append("sqrtprec is not sqrt(prec) * chol.T")
@@ -191,20 +218,20 @@ def run(chk, repo: Repo):
                         work.append(r[1])
         return out
     for ci, order, want in ((fo, 1, ("Dmat/self._dx",)), (so, 2, ("Dmat/self._dx**2", "Dmat/(self._dx*self._dx)", "Dmat/self._dx/self._dx"))):
-        asg = matrix_assigns(ci)
-        one_d = [_norm(n.value) for f, n in asg if "kron" not in _norm(n.value) and "vstack" not in _norm(n.value)]
-        two_d = [(f, n) for f, n in asg if "vstack" in _norm(n.value)]
+        cdm = ci.lookup("_create_diff_matrix")[1]
+        exm = Expander(canon_fn(repo, ci, cdm, 2))        # helpers that assemble the matrix are inlined
+        asg = [n for n in exm.cfg.nodes if n.kind == "stmt" and isinstance(n.ast, ast.Assign) and path_of(n.ast.targets[0]) == "self._matrix"]
+        vals = [_norm(exm.expand(n.ast.value, n, stop=frozenset({"Dmat", "N"}))) for n in asg]
+        one_d = [v_ for v_ in vals if "kron" not in v_ and "vstack" not in v_]
+        two_d = [v_ for v_ in vals if "vstack" in v_]
         if not one_d or not two_d:
             raise AnchorError(f"{ci.qual}: assignments of the operator matrix not found")
-        ok = all(v in want for v in one_d)
-        chk.add("C20-R5", f"{ci.qual}._create_diff_matrix/scaling", ok, site(repo, asg[0][1]), f"order-{order} stencil divided by dx**{order}",
-                f"the 1-D order-{order} operator is assembled as {one_d}, not divided by dx**{order} (differs from the documented stencil whenever dx != 1)", asg[0][1])
-        tails = []
-        for f, n in two_d:
-            t = _norm(f)
-            tails.append("I=eye(N,dtype=int)" in t and "Ds=kron(I,Dmat)" in t and "Dt=kron(Dmat,I)" in t and _norm(n.value) == "vstack([Ds,Dt])")
-        chk.add("C20-R5", f"{ci.qual}._create_diff_matrix/2-D", all(tails), site(repo, two_d[0][1]), "vstack([kron(I, D), kron(D, I)])",
-                "the 2-D operator is not the documented Kronecker stacking vstack([kron(I, D), kron(D, I)])", two_d[0][1])
+        ok = all(v_ in want for v_ in one_d)
+        chk.add("C20-R5", f"{ci.qual}._create_diff_matrix/scaling", ok, site(repo, cdm), f"order-{order} stencil divided by dx**{order}",
+                f"the 1-D order-{order} operator is assembled as {one_d}, not divided by dx**{order} (differs from the documented stencil whenever dx != 1)", cdm)
+        KRON = "vstack([kron(eye(N,dtype=int),Dmat),kron(Dmat,eye(N,dtype=int))])"
+        chk.add("C20-R5", f"{ci.qual}._create_diff_matrix/2-D", all(v_ == KRON for v_ in two_d), site(repo, cdm), "vstack([kron(I, D), kron(D, I)])",
+                f"the 2-D operator is {two_d}, not the documented Kronecker stacking vstack([kron(I, D), kron(D, I)])", cdm)
     for ci, d in ((fo, "np.vstack([-one_vec,one_vec])"), (so, "np.vstack([-one_vec,2*one_vec,-one_vec])")):
         f = ci.lookup("_create_diff_matrix")[1] if ci.lookup("_create_diff_matrix") else None
         if f is not None:
